@@ -244,6 +244,8 @@ class ModelRegistry:
             return it.bi_str(it, ca)
         if clsref.name in ('builtins.bool',):
             return it.bi_bool(it, ca)
+        if clsref.name == 'builtins.type':
+            return self.type_(it, ca)
         if clsref.name in ('builtins.int',):
             return self.int_of(it, ca.args[0] if ca.args else 0)
         raise Unsupported(f'instantiation of library class {clsref}')
@@ -374,6 +376,9 @@ class ModelRegistry:
         base = seq.seq if isinstance(seq, EnumeratedSeq) else seq
         if isinstance(base, RangeSeq):
             raise Unsupported('comprehension over symbolic range')
+        summary = self.user_call_comprehension(it, e, env, kind, base, g)
+        if summary is not None:
+            return summary
         # evaluate filter and element for an arbitrary index k (merged, pure)
         k = st.fresh_int('ck')
         k_counter = st.counter
@@ -452,6 +457,54 @@ class ModelRegistry:
         res = it.new_list(out)
         it.st.ghost.setdefault('comp', {})[res.id] = dict(base=base, out=out, src=src, dst=dst, cond=cond_f, elt=elt_f)
         return res
+
+    def user_call_comprehension(self, it, e, env, kind, base, g):
+        """[f(x) for x in xs] whose body does nothing but call into user code (instantiate a user class, call a user
+        callback): the engine state is untouched, every element is an arbitrary user result, any call may raise.
+        Detected by a probe execution of the body for one arbitrary element (rolled back afterwards)."""
+        st = it.st
+        if g.ifs or kind != 'list':
+            return None
+        k = st.fresh_int('pk')
+        saved = (st.script, st.pos, st.taken, st.pending, list(st.pc), st.choice_log, st.counter, st.next_id)
+        heap_before = {o: dict(v) for o, v in st.heap.items()}
+        n_eff, n_obl = len(st.effects), len(st.obligations)
+        st.solver.push()
+        only_user = False
+        try:
+            st.script, st.pos, st.taken, st.pending = [], 0, [], []
+            st.solver.add(z3.And(k >= 0, k < base.len))
+            sub = Env({}, env, env.finfo)
+            try:
+                it.assign(g.target, lower(base.at(k), st), sub)
+                it.eval(e.elt, sub)
+            except PyRaise:
+                pass
+            effs = st.effects[n_eff:]
+            wrote = any(st.heap.get(o, {}).get(f) is not val for o, flds in heap_before.items() for f, val in flds.items())
+            only_user = bool(effs) and not wrote and any(x.kind == 'user_call' for x in effs) and all(
+                x.kind in ('user_call', 'yield', 'new_exc') for x in effs)
+        except (Unsupported, Infeasible):
+            only_user = False
+        finally:
+            st.solver.pop()
+            (st.script, st.pos, st.taken, st.pending, pc, st.choice_log, st.counter, st.next_id) = saved
+            st.pc = pc
+            st.heap = heap_before
+            del st.effects[n_eff:]
+            del st.obligations[n_obl:]
+        if not only_user:
+            return None
+        used(it, 'a comprehension whose body only calls user code: one arbitrary user result per element, engine state '
+                 'untouched, any of the calls may raise')
+        st.emit('user_calls_over', seq=base, expr=ast.unparse(e.elt))
+        if it.opt.get('user_raises', True) and st.choose([True, True], 'user-comprehension-outcome') == 1:
+            exc = SymV(PyV.exc(st.fresh_int('ecls'), st.fresh_int('eid')))
+            st.assume(PyV.eid(exc.t) >= 0)
+            raise PyRaise(exc, 'raised by user code inside a comprehension')
+        out = SymSeq.fresh(st, 'user_results')
+        st.assume(out.len == base.len)
+        return it.new_list(out)
 
     def nested_set_comprehension(self, it, e, env):
         r = self._try('nested_set_comprehension', it, e, env)
